@@ -84,6 +84,16 @@ def nonEmpty [DecidableEq ν] (dflt : ν) : (d : Nat) → Tree κ ν d → Tree 
   | d + 1, f => ((show List (κ × Tree κ ν d) from f).filter (fun e => !isEmpty dflt d e.2)).map
                   (fun e => (e.1, nonEmpty dflt d e.2))
 
+/-- no explicit default and no empty sub-fiber anywhere (what `nonEmpty` / `fromUncompressed`
+    produce) -/
+def Canonical [DecidableEq ν] (dflt : ν) : (d : Nat) → Tree κ ν d → Prop
+  | 0,     _ => True
+  | d + 1, f => ∀ e ∈ (show List (κ × Tree κ ν d) from f), isEmpty dflt d e.2 = false ∧ Canonical dflt d e.2
+
+def canonicalB [DecidableEq ν] (dflt : ν) : (d : Nat) → Tree κ ν d → Bool
+  | 0,     _ => true
+  | d + 1, f => (show List (κ × Tree κ ν d) from f).all (fun e => !isEmpty dflt d e.2 && canonicalB dflt d e.2)
+
 /-- Lower bound: number of leading coordinates `< c` (what `bisect_left` returns on a
     sorted list; also the linear search of `_coord2pos`). -/
 def lowerBound [LT κ] [DecidableRel (α := κ) (· < ·)] {π : Type} (f : Fib κ π) (c : κ) : Nat :=
